@@ -424,13 +424,25 @@ func runC10(seed uint64, n int, outDir string, replay string) {
 				alen, wx.forceRegion = max(alen, 2), 1
 			}
 			for i, a := 0, alen; i < a || (c == 0 && !hit && i < 16); i++ {
-				b, err := buildOn(wx, rc.Chance(60) && c != 0 && !(wx.busy && i < 2))
+				foreignBlock := rc.Chance(60) && c != 0 && !(wx.busy && i < 2)
+				if rc.Chance(55) {
+					// a block nobody asks anything of: if it changes the Qi ledger, then only by trimming old outputs
+					wx.quiet, foreignBlock = true, false
+				}
+				b, err := buildOn(wx, foreignBlock)
 				if err != nil {
 					o.Violate("c07-own-block-rejected", fmt.Sprintf("branch A block %d: %v", i+1, err))
 					return
 				}
 				A = append(A, b)
 				emit(b, true)
+				if sp, _ := rawdb.ReadSpentUTXOs(X.db, b.st.blk.Hash()); len(sp) == 0 {
+					if ck, _ := rawdb.ReadCreatedUTXOKeys(X.db, b.st.blk.Hash()); len(ck) == 0 {
+						if tr, _ := rawdb.ReadTrimmedUTXOs(X.db, b.st.blk.Hash()); len(tr) > 0 {
+							o.Count("abandoned-block:only-trims")
+						}
+					}
+				}
 				hit = hit || len(doubleRemovals(X.db, b.st.blk)) > 0
 				if dcl, err := rawdb.ReadDeletedCoinbaseLockups(X.db, b.st.blk.Hash()); err == nil {
 					per := map[string]int{}
